@@ -534,6 +534,7 @@ InAlphabet(t, rd) ==
     [] t = 29  -> LocOK(rd)
     [] t = 50  -> Len(rd) >= 5 /\ Len(rd) >= 6 + rd[5] /\ rd[6 + rd[5]] >= 1                     \* RFC 5155 s.3.2: hash length 1..255
     [] t = 55  -> Len(rd) >= 4 /\ rd[1] >= 1 /\ rd[3] * 256 + rd[4] >= 1                        \* RFC 8005 s.5: a HIT and a key
+    [] t \in {16, 56, 99, 258, 261} -> rd # <<>>                                                  \* RFC 1035 s.3.3.14: one or more <character-string>s
     [] t \in {64, 65} -> LET d == DecName(rd, 2) IN d.ok /\ SvcParamsOK(rd, d.next)
     [] OTHER   -> TRUE
 =============================================================================
